@@ -631,9 +631,22 @@ func predicateOnlyThrough(f Fact, m FactM, depth int) bool {
 		return false
 	}
 	want := f.R.Name == "true"
-	g, resK, _, okP := predicateOf(f.L)
+	g, resK, theCall, okP := predicateOf(f.L)
 	if !okP {
 		return false
+	}
+	// the callee's facts speak about its parameters: judge them with the arguments of this call put in
+	if theCall != nil {
+		sub := map[ssa.Value]*Term{}
+		for i, pr := range g.Params {
+			if i < len(theCall.Call.Args) {
+				sub[pr] = TermOf(theCall.Call.Args[i])
+			}
+		}
+		m0 := m
+		m = func(x Fact) bool {
+			return m0(x) || m0(Fact{Op: x.Op, L: SubstTerm(x.L, sub), R: SubstTerm(x.R, sub)})
+		}
 	}
 	cut := func(b *ssa.BasicBlock, k int) bool { return edgeFactMatches(b, k, m, depth+1) }
 	any := false
@@ -1121,12 +1134,55 @@ func CanReachFeasible(from Point, target func(ssa.Instruction) bool, o ReachOpts
 // being true implies, and the leaf false under the facts that e being false implies. Rules of the
 // form "true is returned only when ..." then do not depend on the result being written as a
 // literal (`return x == END, nil` ≡ `if x == END { return true, nil }; return false, nil`).
-func BoolLeaves(v ssa.Value, at *ssa.BasicBlock) []Leaf {
+func BoolLeaves(v ssa.Value, at *ssa.BasicBlock) []Leaf { return boolLeaves(v, at, 0) }
+
+func boolLeaves(v ssa.Value, at *ssa.BasicBlock, depth int) []Leaf {
 	var out []Leaf
 	for _, lf := range Leaves(v, at) {
 		if _, isC := lf.V.(*ssa.Const); isC || !isBoolType(lf.V.Type()) {
 			out = append(out, lf)
 			continue
+		}
+		// the (k-th) boolean result of a repository function: one leaf per way the callee can
+		// produce each outcome, under the callee's own facts (parameters replaced by the arguments)
+		if g, k, call, ok := predicateOf(TermOf(lf.V)); ok && depth < 2 {
+			sub := map[ssa.Value]*Term{}
+			for i, pr := range g.Params {
+				if i < len(call.Call.Args) {
+					sub[pr] = TermOf(call.Call.Args[i])
+				}
+			}
+			expanded := true
+			var inner []Leaf
+			gf := FactsFor(g)
+			for _, b := range g.Blocks {
+				if b == g.Recover {
+					continue
+				}
+				for _, in := range b.Instrs {
+					ret, isRet := in.(*ssa.Return)
+					if !isRet || len(ret.Results) <= k {
+						continue
+					}
+					for _, l2 := range boolLeaves(Forwarded(ret.Results[k]), ret.Block(), depth+1) {
+						kc, isC := l2.V.(*ssa.Const)
+						if !isC {
+							expanded = false
+							continue
+						}
+						fs := append([]Fact{}, lf.Facts...)
+						fs = append(fs, FactOf(lf.V, constText(kc) == "true"))
+						for _, x := range append(append([]Fact{}, gf.At(ret.Block())...), l2.Facts...) {
+							fs = append(fs, Fact{Op: x.Op, L: SubstTerm(x.L, sub), R: SubstTerm(x.R, sub)})
+						}
+						inner = append(inner, Leaf{V: kc, Facts: fs})
+					}
+				}
+			}
+			if expanded && len(inner) > 0 {
+				out = append(out, inner...)
+				continue
+			}
 		}
 		for _, want := range []bool{true, false} {
 			f := FactOf(lf.V, want)
@@ -1231,4 +1287,42 @@ func valueIs(v ssa.Value, m M, depth int) bool {
 		}
 	}
 	return n > 0
+}
+
+// MustDo lifts an instruction predicate over helper calls: an instruction "does X" when it
+// satisfies pred, or when it is a static call of a repository function none of whose paths
+// returns without doing X (two levels). A step that was extracted into a helper is thereby
+// judged like the statements it replaced.
+func MustDo(pred func(ssa.Instruction) bool) func(ssa.Instruction) bool {
+	memo := map[*ssa.Function]bool{}
+	busy := map[*ssa.Function]bool{}
+	var instr func(in ssa.Instruction, depth int) bool
+	fnMust := func(f *ssa.Function, depth int) bool {
+		if v, ok := memo[f]; ok {
+			return v
+		}
+		if busy[f] {
+			return false
+		}
+		busy[f] = true
+		reach, _ := CanReach(Entry(f), IsReturn, ReachOpts{CutInstr: func(x ssa.Instruction) bool { return instr(x, depth) }})
+		busy[f] = false
+		memo[f] = !reach
+		return !reach
+	}
+	instr = func(in ssa.Instruction, depth int) bool {
+		if pred(in) {
+			return true
+		}
+		ci, ok := in.(ssa.CallInstruction)
+		if !ok || depth >= 2 {
+			return false
+		}
+		g := ci.Common().StaticCallee()
+		if g == nil || g.Blocks == nil || g.Pkg == nil || !strings.HasPrefix(g.Pkg.Pkg.Path(), ModPath) {
+			return false
+		}
+		return fnMust(g, depth+1)
+	}
+	return func(in ssa.Instruction) bool { return instr(in, 0) }
 }
